@@ -16,3 +16,10 @@ Proof.
   match goal with |- context [if ?c then _ else _] => destruct c end; [reflexivity|].
   match goal with |- context [if ?c then _ else _] => destruct c end; reflexivity.
 Qed.
+
+(* the character test of the backwards separator scan in basename and in dirname *)
+Lemma gen_basename_sep_eq_l : forall c : Z, gen_basename_sep c = is_sep c.
+Proof. intro c. reflexivity. Qed.
+
+Lemma gen_dirname_sep_eq_l : forall c : Z, gen_dirname_sep c = is_sep c.
+Proof. intro c. reflexivity. Qed.
